@@ -1,6 +1,8 @@
 (** * C04 — Only relative trust magnitudes matter (canonicalisation, scale invariance). *)
-From Coq Require Import List Arith Bool Reals.
-From ET Require Import Model.Scalar Model.Sparse Model.Basic Proofs.SparseBase Proofs.RInst Proofs.BasicProofs.
+From Coq Require Import List Arith Bool Reals ZArith Floats.
+From Flocq Require Import Core.
+From ET Require Import Model.Scalar Model.Sparse Model.Basic Proofs.SparseBase Proofs.RInst Proofs.BasicProofs
+  Proofs.ScaleRound Proofs.F64Round Proofs.F64Scale.
 Import ListNotations.
 
 (** (G) Canonicalize divides every entry by the compensated sum, indices
@@ -73,8 +75,103 @@ Theorem C04_canon_tv_distribution_R :
 Proof. exact canon_tv_distribution. Qed.
 Print Assumptions C04_canon_tv_distribution_R.
 
-(** (F) PARTIAL: "bit-identical for power-of-two factors (absent overflow /
-    underflow)" is not proved as a theorem for binary64 (it needs the Flocq
-    scaling lemmas for every operation of the compensated sum and the
-    division); it is decided per run by the correspondence cases [Scaled],
-    which compare the canonical forms of scaled and unscaled inputs bit for bit. *)
+(** (B64 = binary64 arithmetic with unbounded exponent: every operation is the
+    exact real operation rounded to 53 bits, nearest-even)  multiplying a span,
+    every row of a matrix (each by its own factor) or a whole vector by a power of
+    two gives *the same* canonical form — equality, not closeness. *)
+Theorem C04_pow2_scaling_identical_rounded :
+  forall (e : Z) (l : list (nat * B64)),
+    @canon B64 (escale rnd64 (bpow radix2 e) l) = @canon B64 l.
+Proof. exact canon_pow2_identical. Qed.
+Print Assumptions C04_pow2_scaling_identical_rounded.
+
+Theorem C04_pow2_row_scaling_identical_rounded :
+  forall (m m' : csm B64) (pv : vec B64),
+    major m' = major m -> minor m' = minor m -> Forall2 pow2_scaled (rows m) (rows m') ->
+    @canon_lt B64 m' (Some pv) = @canon_lt B64 m (Some pv).
+Proof. exact canon_lt_pow2_identical. Qed.
+Print Assumptions C04_pow2_row_scaling_identical_rounded.
+
+Theorem C04_pow2_vector_scaling_identical_rounded :
+  forall (e : Z) (v : vec B64),
+    @canon_tv B64 {| vdim := vdim v; vents := escale rnd64 (bpow radix2 e) (vents v) |} = @canon_tv B64 v.
+Proof. exact canon_tv_pow2_identical. Qed.
+Print Assumptions C04_pow2_vector_scaling_identical_rounded.
+
+(** the same for any rounding function and any factor it commutes with *)
+Theorem C04_scaling_identical_any_rounding :
+  forall (rnd : R -> R) (c : R) (l : list (nat * RND rnd)),
+    exact_factor rnd c -> @canon (RND rnd) (escale rnd c l) = @canon (RND rnd) l.
+Proof. exact canon_scale_rnd. Qed.
+Print Assumptions C04_scaling_identical_any_rounding.
+
+(** (F64 vs B64) on finite operands whose exact result neither underflows nor
+    overflows, the primitive binary64 operation returns exactly the rounded
+    real result (Flocq's specification of Coq's primitive floats). *)
+Theorem C04_f64_add_is_rounded_add :
+  forall x y, finite64 x -> finite64 y -> in_range (val64 x + val64 y) ->
+    finite64 (x + y)%float /\ val64 (x + y)%float = rnd64 (val64 x + val64 y).
+Proof. exact f64_add_rounds. Qed.
+Print Assumptions C04_f64_add_is_rounded_add.
+Theorem C04_f64_div_is_rounded_div :
+  forall x y, finite64 x -> val64 y <> 0%R -> in_range (val64 x / val64 y) ->
+    finite64 (x / y)%float /\ val64 (x / y)%float = rnd64 (val64 x / val64 y).
+Proof. exact f64_div_rounds. Qed.
+Print Assumptions C04_f64_div_is_rounded_div.
+
+(** (F64) the whole of Canonicalize on the binary64 instance simulates the
+    rounded-real computation while every intermediate result is in range ... *)
+Theorem C04_canon_f64_simulates_rounded :
+  forall (l : list (nat * F64)) (l' : list (nat * B64)),
+    Forall2 esim l l' -> canon_ok (map snd l') ->
+    match @canon F64 l, @canon B64 l' with
+    | Ok r, Ok r' => Forall2 esim r r'
+    | ErrZeroSum, ErrZeroSum => True
+    | _, _ => False
+    end.
+Proof. exact canon_sim. Qed.
+Print Assumptions C04_canon_f64_simulates_rounded.
+
+(** ... hence (F64, the instance compared bit for bit with the Go code): two
+    float spans whose values differ by a factor 2^e, both canonicalised without
+    overflow/underflow ([canon_ok]), report a zero sum together or yield, position
+    by position, finite floats of the same value — the same float whenever the
+    value is not zero.  Likewise for every row of a matrix with its own factor. *)
+Theorem C04_pow2_scaling_bit_identical_F64 :
+  forall (e : Z) (l l2 : list (nat * F64)),
+    Forall2 (scaled_by e) l l2 ->
+    canon_ok (map snd (vals l)) -> canon_ok (map snd (vals l2)) ->
+    match @canon F64 l, @canon F64 l2 with
+    | Ok r, Ok r2 => Forall2 same_float r r2
+    | ErrZeroSum, ErrZeroSum => True
+    | _, _ => False
+    end.
+Proof. exact canon_pow2_bits_F64. Qed.
+Print Assumptions C04_pow2_scaling_bit_identical_F64.
+
+Theorem C04_pow2_row_scaling_bit_identical_F64 :
+  forall (m m2 : csm F64) (pv : vec F64),
+    major m2 = major m -> minor m2 = minor m ->
+    Forall (fun a => finite64 (snd a)) (vents pv) ->
+    Forall2 row_pow2_ok (rows m) (rows m2) ->
+    match @canon_lt F64 m (Some pv), @canon_lt F64 m2 (Some pv) with
+    | Ok c, Ok c2 => major c = major c2 /\ minor c = minor c2 /\
+                     Forall2 (Forall2 same_float) (rows c) (rows c2)
+    | ErrDim, ErrDim => True
+    | _, _ => False
+    end.
+Proof. exact canon_lt_pow2_bits_F64. Qed.
+Print Assumptions C04_pow2_row_scaling_bit_identical_F64.
+
+(** non-vacuity of the side conditions *)
+Theorem C04_canon_ok_example : canon_ok (map snd (vals [(0%nat, 1%float : F64)])).
+Proof. exact canon_ok_example. Qed.
+Theorem C04_pow2_example :
+  @canon B64 [(0%nat, 1024%R : B64); (1%nat, 3072%R : B64)] = @canon B64 [(0%nat, 1%R : B64); (1%nat, 3%R : B64)].
+Proof. exact canon_pow2_example. Qed.
+
+(** (F) what stays decided per run rather than proved: that the concrete runs
+    meet [canon_ok] (the "absent overflow/underflow" clause is a hypothesis
+    here), and the propagation through Compute (which consumes the canonical
+    forms) — the correspondence cases [Scaled] compare the canonical forms of
+    scaled and unscaled inputs, and the scores computed from them, bit for bit. *)
